@@ -2,6 +2,8 @@
 from __future__ import annotations
 
 import ast
+import json
+import os
 import builtins
 import sys
 import types
@@ -110,6 +112,21 @@ class Frame:
                 return f.locals[name]
             f = f.parent
         raise KeyError(name)
+
+
+_LOOP_HEADERS: Optional[Dict[str, Dict[str, str]]] = None
+
+
+def _loop_headers() -> Dict[str, Dict[str, str]]:
+    global _LOOP_HEADERS
+    if _LOOP_HEADERS is None:
+        p = os.path.join(os.path.dirname(os.path.dirname(os.path.abspath(__file__))), 'contracts', 'loop_headers.json')
+        try:
+            with open(p) as fh:
+                _LOOP_HEADERS = json.load(fh)
+        except (OSError, ValueError):
+            _LOOP_HEADERS = {}
+    return _LOOP_HEADERS
 
 
 def _has_yield(node: Any) -> bool:
@@ -739,9 +756,13 @@ class Interp:
 
     # --- loops ---------------------------------------------------------------
     def loop_spec(self, f: Frame, node: Any) -> Tuple[Optional[LoopSpec], str]:
+        """The contract of this loop.  Contracts are keyed (function, header text) or (function, ordinal 'for#k').  For ordinal keys the
+        header the loop had when the contract was written is recorded in contracts/loop_headers.json (generated on the unchanged tree):
+        if the loops of the function have since been reordered, the contract follows its loop instead of its position."""
         label = f.loop_labels.get(id(node), '?')
         if self.registry is None or f.closure is None:
             return None, label
+        key = f.closure.key
         try:
             if isinstance(node, ast.While):
                 header = 'while ' + ast.unparse(node.test)
@@ -750,11 +771,24 @@ class Interp:
         except Exception:
             header = None
         if header is not None:
-            spec = self.registry.loop_spec(f.closure.key, header)
+            spec = self.registry.loop_spec(key, header)
             if spec is not None:
-                f.locals['$loop_alias'] = '_i_' + label.replace('#', '')
                 return spec, (spec.name or label)
-        return self.registry.loop_spec(f.closure.key, label), label
+        rec = _loop_headers().get(key, {})
+        if header is not None and rec:
+            kind = label.split('#')[0]
+            cands = [lb for lb, h in rec.items() if h == header and lb.split('#')[0] == kind and self.registry.loop_spec(key, lb) is not None]
+            if len(cands) == 1:
+                return self.registry.loop_spec(key, cands[0]), cands[0]
+            if label in rec and rec[label] != header and self.registry.loop_spec(key, label) is not None and not cands:
+                # the contract registered under this ordinal was written for another loop, and this loop has none
+                return None, label
+        spec = self.registry.loop_spec(key, label)
+        rf = os.environ.get('PYVC_RECORD_LOOPS')
+        if spec is not None and rf and header is not None:
+            with open(rf, 'a') as fh:
+                fh.write(json.dumps([key, label, header]) + '\n')
+        return spec, label
 
     def x_While(self, s: ast.While, f: Frame) -> None:
         spec, label = self.loop_spec(f, s)
